@@ -231,6 +231,13 @@ func (api *HTTP) DispatchPrivate(w http.ResponseWriter, r *http.Request) {
 func (api *HTTP) DispatchPrivateWithoutAuth(w http.ResponseWriter, r *http.Request) {
 	defer exitOnRecover()
 
+	if strings.HasPrefix(r.URL.Path, "/debug/") {
+		// Handlers which packages register as a side effect (net/http/pprof,
+		// expvar) live on the default mux, which is not served directly.
+		http.DefaultServeMux.ServeHTTP(w, r)
+		return
+	}
+
 	switch r.Method {
 	case http.MethodGet:
 		switch r.URL.Path {
